@@ -48,7 +48,12 @@ def minimise(prop_mod, scenario, signature, budget_runs=300, budget_s=75.0, nwor
                 cands = list(_op_removals(cur))
             else:
                 simp = getattr(prop_mod, "simplify", None)
-                cands = list(simp(copy.deepcopy(cur))) if simp else []
+                try:
+                    cands = list(simp(copy.deepcopy(cur))) if simp else []
+                except Exception as e:      # a simplifier bug must never turn into a verdict
+                    if log:
+                        log("simplify() failed (%r); keeping the current scenario" % (e,))
+                    cands = []
             # de-duplicate and drop no-ops
             seen, uniq = set(), []
             from .core import dumps
